@@ -767,9 +767,29 @@ class Interp:
                 rt = d.feasible(t)
                 rf = d.feasible(z3.Not(t))
                 if rt != z3.unsat and rf != z3.unsat:
-                    merged = ops.try_ite(self, t, e.body, e.orelse, env)
+                    # try to merge the two branches into one ite term; if a branch forks, raises or is not a scalar, the
+                    # attempt is undone and the conditional is executed by forking on its test
+                    snap = (len(d.decisions), d.pos, len(d.pc), len(d.__dict__.get("forks", [])), len(d.__dict__.get("temp", [])),
+                            len(self.effects), len(self.io_log))
+                    try:
+                        merged = ops.try_ite(self, t, e.body, e.orelse, env)
+                    except Undecided:
+                        merged = NotImplemented
+                    except ENGINE_EXC:
+                        raise
+                    except Exception:  # a branch raised under its condition: decided by the forking execution below
+                        merged = NotImplemented
                     if merged is not NotImplemented:
                         return merged
+                    del d.decisions[snap[0]:]
+                    d.pos = snap[1]
+                    del d.pc[snap[2]:]
+                    if "forks" in d.__dict__:
+                        del d.__dict__["forks"][snap[3]:]
+                    if "temp" in d.__dict__:
+                        del d.__dict__["temp"][snap[4]:]
+                    del self.effects[snap[5]:]
+                    del self.io_log[snap[6]:]
         return self.ev(e.body, env) if self.truth(c) else self.ev(e.orelse, env)
 
     def ev_UnaryOp(self, e, env):
